@@ -390,8 +390,20 @@ func runC13(rt *rapid.T, c c13case, st *stats.Collector) {
 			rt.Fatalf("follow-up INSERT: the server parsed %d rows at revision %d, 3 were sent", rows, N)
 		}
 	})
+	// A statement the caller binds nothing to (no result, no input) whose answer opens with a schema
+	// block of several columns: the descriptors are skipped with the fields of revision N, and the
+	// connection has idled past the handshake timeout by then - nothing of the handshake (a deadline
+	// on the connection, say) concerns a later request.
+	time.Sleep(effHS + time.Second)
+	hdrCols := []ref.Column{{Name: "a", T: ref.Fixed("UInt8", 1)}, {Name: "bb", T: ref.Fixed("UInt64", 8)}, {Name: "", T: ref.Fixed("Int16", 2)}}
+	e.srv.Steps = append(e.srv.Steps,
+		itemStep(Item{Kind: "data", Block: &ref.Block{Columns: hdrCols[:2+N%2]}}, simnet.AfterQuery(3), c.comp.Method, nil),
+		itemStep(Item{Kind: "eos"}, nil, 0, nil))
+	if err := doBounded(rt, e, client, context.Background(), ch.Query{Body: "INSERT INTO t SELECT a, bb FROM s"}, time.Minute, "follow-up statement without result or input"); err != nil {
+		rt.Fatalf("follow-up statement without result or input, answered by a %d-column schema block and end of stream at negotiated revision %d, %v after the handshake: %v", 2+N%2, N, effHS+time.Second, err)
+	}
 	// Parameters are refused iff N < 54459.
-	e.srv.Steps = append(e.srv.Steps, itemStep(Item{Kind: "eos"}, simnet.AfterQuery(3), 0, nil))
+	e.srv.Steps = append(e.srv.Steps, itemStep(Item{Kind: "eos"}, simnet.AfterQuery(4), 0, nil))
 	before := e.conn.NumWrites()
 	perr := doBounded(rt, e, client, context.Background(), ch.Query{Body: "SELECT {a:Int8}", Parameters: []proto.Parameter{{Key: "a", Value: "1"}}}, time.Minute, "query with parameters")
 	if N < ref.RevParameters {
